@@ -42,7 +42,7 @@ def run(ctx):
   cfgs = relaycheck.CONFIGS_QUICK + ([] if ctx.quick else relaycheck.CONFIGS_MORE)
   first = True
   for ci, cfg in enumerate(cfgs):
-    consts, traces, origins = relaycheck.run_traces(ctx, rm, cfg, nsim=ctx.pick(40, 400), nrandom=ctx.pick(60, 1500),
+    consts, traces, origins = relaycheck.run_traces(ctx, rm, cfg, nsim=ctx.pick(40, 250), nrandom=ctx.pick(60, 600),
                                                     nevents=ctx.pick(40, 120), seed_base=ctx.seed + 10 + ci)
     verdicts = relaycheck.judge(ctx, consts, traces, 'C07 traces cfg %d' % ci)
     relaycheck.report(ctx, traces, origins, verdicts, relaycheck.C07_FLAGS)
